@@ -90,7 +90,7 @@ fn main() {
     sum.nontrivial_rule = "a case is one statement of a history with the engine's result and the full dumped state after it; non-trivial = the statement was accepted and changed some table, or was rejected / panicked / crashed (accepted no-op statements are not counted); distinct = distinct (schema, pre-state, statement) texts".into();
     let mut log = CaseLog::new(&args);
     let n_scripted = (0..).take_while(|k| scripted(*k).is_some()).count();
-    let (n_random, len) = if args.thorough { (6000usize, 40usize) } else { (640usize, 22usize) };
+    let (n_random, len) = if args.thorough { (4000usize, 36usize) } else { (640usize, 22usize) };
     let per_shard = if args.thorough { 120 } else { 44 };
     let total = n_scripted + n_random;
     let only_h: Option<Vec<u64>> = args.only.as_ref().map(|ids| ids.iter().map(|i| i / 1000).collect());
